@@ -226,6 +226,7 @@ theorem wrapR_iff (x : OpK) (e : Formula) : (x.rank ≤ e.rootRank) ↔ prio x.i
   | un u e => exact rank_le_iff prio ok x (.u u)
   | bin o l r => exact rank_le_iff prio ok x (.b o)
   | lit v => simp [Formula.rootRank, rootIdx, ok.zero]; omega
+  | sc dq items => simp [Formula.rootRank, rootIdx, ok.zero]; omega
   | fn1 f a => simp [Formula.rootRank, rootIdx, ok.zero]; omega
   | fn2 f a b => simp [Formula.rootRank, rootIdx, ok.zero]; omega
   | fn3 f a b c => simp [Formula.rootRank, rootIdx, ok.zero]; omega
@@ -235,6 +236,7 @@ theorem wrapL_iff (x : OpK) (e : Formula) : (x.rank < e.rootRank) ↔ prio x.idx
   | un u e => exact ok.lt x (OpK.mem_all x) (.u u) (OpK.mem_all _)
   | bin o l r => exact ok.lt x (OpK.mem_all x) (.b o) (OpK.mem_all _)
   | lit v => simp [Formula.rootRank, rootIdx, ok.zero]
+  | sc dq items => simp [Formula.rootRank, rootIdx, ok.zero]
   | fn1 f a => simp [Formula.rootRank, rootIdx, ok.zero]
   | fn2 f a b => simp [Formula.rootRank, rootIdx, ok.zero]
   | fn3 f a b c => simp [Formula.rootRank, rootIdx, ok.zero]
@@ -289,6 +291,11 @@ theorem effL_le (x : OpK) (e : Formula) :
 theorem scan_toks (f : Formula) : FrAll prio (toks f) (prio (rootIdx f)) := by
   induction f with
   | lit v =>
+    intro s _
+    simp only [toks, scanG_single]
+    exact ⟨rfl, Nat.le_refl _, rfl, fun _ => ⟨rfl, rfl⟩, fun _ => ⟨rfl, rfl⟩,
+      Nat.le_max_left _ _, Nat.le_refl _⟩
+  | sc dq items =>
     intro s _
     simp only [toks, scanG_single]
     exact ⟨rfl, Nat.le_refl _, rfl, fun _ => ⟨rfl, rfl⟩, fun _ => ⟨rfl, rfl⟩,
